@@ -271,8 +271,19 @@ def run(verdict, tier):
     for mask, lst in by_mask.items():
         valid_like = [(r_, s) for (r_, s) in lst if r_ in ("ok", "x0_nonfinite")]
         others = [(r_, s) for (r_, s) in lst if r_ not in ("ok", "x0_nonfinite")]
+        # one representative per (reason, hard-bound kind) for invalid x invalid products, so that defects of
+        # DIFFERENT coordinates that could mask each other are combined (e.g. bounded below only + above only)
+        seen_r = set()
+        inv_reps = []
+        for (r_, s_) in others:
+            key_r = (r_, s_["lb"] == NINF or s_["lb"] == NONE, s_["ub"] == PINF or s_["ub"] == NONE)
+            if key_r not in seen_r:
+                seen_r.add(key_r)
+                inv_reps.append((r_, s_))
+        half = [(r_, s_) for (r_, s_) in others if r_ == "half_bounded"]
         pairs = list(itertools.product(valid_like, valid_like)) + \
-            list(itertools.product(valid_like[:3], others)) + list(itertools.product(others, valid_like[:3]))
+            list(itertools.product(valid_like[:3], others)) + list(itertools.product(others, valid_like[:3])) + \
+            list(itertools.product(inv_reps, inv_reps)) + list(itertools.product(half, half))
         for (r1, s1), (r2, s2) in pairs:
             defn = {f: (None if s1[f] == NONE else [s1[f], s2[f]]) for f in ("x0", "lb", "ub", "plb", "pub")}
             exp = vec_verdict([r1, r2], defn)
